@@ -79,6 +79,8 @@ pub fn observe(c: &Case) -> Result<Obs, String> {
     let mut subs_t: Vec<Option<BoxSubscriptionThreads>> = vec![None, None, None];
     let mut overlapped = false;
     let mut left_before_end = false;
+    let mut rejoined = [false; 3];
+    let mut rejoin_at: Option<u64> = None;
 
     // the pipelines under test
     macro_rules! tapped_local {
@@ -133,7 +135,16 @@ pub fn observe(c: &Case) -> Result<Obs, String> {
           }
           ever[*k] = true;
           if all_left_at.is_some() {
-            continue; // re-joining after the count dropped to zero is unspecified
+            // re-joining after the count dropped to zero: whether the share reconnects is
+            // unspecified; only hot sources are re-joined here, and the re-joined subscriber is
+            // owed exactly the emissions that the shared source is seen to make (upstream tap)
+            if c.src != SrcKind::Hot || c.mode == Mode::Publish || src_done {
+              continue;
+            }
+            if rejoin_at.is_none() {
+              rejoin_at = Some(log.mark(0, "rejoined", *k as i64));
+            }
+            rejoined[*k] = true;
           }
           let probe = Probe::new(1 + *k as u32, &log);
           let was_connected = connected;
@@ -202,7 +213,7 @@ pub fn observe(c: &Case) -> Result<Obs, String> {
           item += 1;
           if connected {
             for k in 0..3 {
-              if active[k] {
+              if active[k] && !rejoined[k] {
                 expected[k].push(N::Next(V::I(item)));
               }
             }
@@ -213,9 +224,17 @@ pub fn observe(c: &Case) -> Result<Obs, String> {
           } else {
             hot_l.next(V::I(item))
           }
+          // a re-joined subscriber: present at this emission iff the shared source made it
+          if log.marks(TAP, "tap").iter().any(|(_, v)| *v == item) {
+            for k in 0..3 {
+              if active[k] && rejoined[k] {
+                expected[k].push(N::Next(V::I(item)));
+              }
+            }
+          }
         }
         Hop::SrcComplete => {
-          if c.src != SrcKind::Hot || src_done {
+          if c.src != SrcKind::Hot || src_done || rejoin_at.is_some() {
             continue;
           }
           src_done = true;
@@ -270,7 +289,9 @@ pub fn observe(c: &Case) -> Result<Obs, String> {
     if let Some(left) = all_left_at {
       match c.src {
         SrcKind::Hot => {
-          let later_taps = evs.iter().filter(|e| e.id == TAP && e.seq > left).count();
+          // (a later re-join may legitimately drive the source again)
+          let until = rejoin_at.unwrap_or(u64::MAX);
+          let later_taps = evs.iter().filter(|e| e.id == TAP && e.seq > left && e.seq < until).count();
           if later_taps > 0 {
             problems.push((
               "source_driven_after_last_leave".into(),
@@ -405,6 +426,9 @@ pub fn run(cfg: &Cfg, rep: &mut Report) {
       rep.events += obs.evs.len() as u64;
       if obs.overlapped_and_left_before_end {
         rep.nontrivial.insert(hash64(&c));
+      }
+      if obs.evs.iter().any(|e| matches!(e.k, K::Mark("rejoined", _))) {
+        rep.count("histories_with_a_rejoin_after_everybody_left", 1);
       }
       if obs.evs.iter().any(|e| matches!(e.k, K::Mark("last_subscriber_left", _))) {
         rep.count("histories_where_the_last_subscriber_left", 1);
